@@ -17,7 +17,7 @@ def run(ctx):
     q12 += [('bad', 16, ['bad:c02-sent-after-a-later-change', 'bad:c02-send-out-of-order', 'bad:c02-applied-but-never-sent'], way),
             ('stuck', 18, ['bad:c07-wrong-outcome-at-quiescence'], way)]
     # waypoint: the first transaction rejected (abort possibly interrupted), the second committed behind it; 14 more steps
-    wayf = {'pred': 'reach:w-FC', 'depth': 18, 'seed': {'pred': 'reach:w-F-', 'depth': 20}, 'variants': 1 if quick else 3}
+    wayf = {'pred': 'reach:w-FC', 'depth': 22, 'seed': {'pred': 'reach:w-F-', 'depth': 24}, 'variants': 1 if quick else 3}
     q12 += [('stuck', 14, ['bad:c07-wrong-outcome-at-quiescence', 'bad:stranded'], wayf)]
     proto.run(ctx, 'C07', [('1x1c', c11, q11, []), ('1x2c', c12, q12, [])],
               'process stops injected between any two store/device calls of any step (symbolic crash position per step, budget of '
